@@ -31,14 +31,24 @@ func GetLabelsValues(obj *metav1.ObjectMeta) ([]string, []string) {
 
 // BuildInfoLabels build the lists of label keys and values from the ObjectMeta Labels.
 func BuildInfoLabels(obj *metav1.ObjectMeta) ([]string, []string) {
-	labelKeys := []string{}
+	// Sort the original keys (by their sanitized form) so that each value is looked up with the key it belongs to.
+	rawKeys := make([]string, 0, len(obj.Labels))
 	for key := range obj.Labels {
-		labelKeys = append(labelKeys, sanitizeLabelName(key))
+		rawKeys = append(rawKeys, key)
 	}
-	sort.Strings(labelKeys)
+	sort.Slice(rawKeys, func(i, j int) bool {
+		si, sj := sanitizeLabelName(rawKeys[i]), sanitizeLabelName(rawKeys[j])
+		if si != sj {
+			return si < sj
+		}
 
-	labelValues := make([]string, len(obj.Labels))
-	for i, key := range labelKeys {
+		return rawKeys[i] < rawKeys[j]
+	})
+
+	labelKeys := make([]string, len(rawKeys))
+	labelValues := make([]string, len(rawKeys))
+	for i, key := range rawKeys {
+		labelKeys[i] = sanitizeLabelName(key)
 		labelValues[i] = obj.Labels[key]
 	}
 
